@@ -212,9 +212,19 @@ func verifC06ChainName(tag string, depth int) enc.Name {
 }
 
 func VerifC06_Scripted() {
-	depth := verifParam("sdepth", 3)
 	nshapes := verifParam("shapes", len(verifC06Shapes))
-	shape := verifC06Shapes[verifChoice("shape", nshapes)]
+	verifC06Script(verifC06Shapes[verifChoice("shape", nshapes)])
+}
+
+// face removal after two registrations (in the quick tier under its own budget): the removed face's routes and
+// everything descendants inherited from them must be gone
+func VerifC06_ScriptedCleanup() {
+	shapes := []string{"AAC", "AAAC"}
+	verifC06Script(shapes[verifChoice("shape", verifParam("cleanupshapes", 1))])
+}
+
+func verifC06Script(shape string) {
+	depth := verifParam("sdepth", 3)
 	label := "C06/tree"
 	if verifParam("bothfibs", 0) == 0 || verifChoice("impl", 2) == 0 {
 		newFibStrategyTableTree()
